@@ -134,14 +134,21 @@ theorem exec_ownEq (P : Prog) (k : Nat) (s s' : State) (t : Nat) (i : Instr) (re
   case joinU k' =>
     simp only [exec] at h
     split at h
-    · rename_i hg
-      obtain ⟨hs0, htk⟩ := hg
-      have hkn := hlt k' (by rw [hs0]; simp)
-      have hmk := hut k' (by simp)
-      simp only [Option.some.injEq] at h; subst h
-      refine ownEq_upd2 P k s _ t k' _ _ hE ht hkn (Ne.symm htk) rfl ?_
-      simp [hc, occ, occI, oPlus, hs0, hmk, htk]
-    · simp at h
+    · simp only [Option.some.injEq] at h; subst h
+      refine ownEq_upd1 P k s _ t _ hE ht rfl ?_
+      simp [hc, occ, occI, oPlus]
+    · split at h
+      · simp only [Option.some.injEq] at h; subst h
+        refine ownEq_upd1 P k s _ t _ hE ht rfl ?_
+        simp [hc, occ, occI, oPlus]
+      · split at h
+        · rename_i htk _ hs0
+          have hkn := hlt k' (by rw [hs0]; simp)
+          have hmk := hut k' (by simp)
+          simp only [Option.some.injEq] at h; subst h
+          refine ownEq_upd2 P k s _ t k' _ _ hE ht hkn (Ne.symm htk) rfl ?_
+          simp [hc, occ, occI, oPlus, hs0, hmk, htk]
+        · simp at h
   case pjaSwapPush =>
     simp only [nPja, pjaWant] at hpt
     have hst : P.managed t = true ∧ (s.th t).status = .atexitDone := by
